@@ -340,12 +340,13 @@ class ASTListener(ModelicaListener):
     def exitSimple_expression(self, ctx: ModelicaParser.Simple_expressionContext):
         if len(ctx.expr()) > 1:
             if len(ctx.expr()) > 2:
-                step = self.ast[ctx.expr()[2]]
+                # start : step : stop  (Modelica puts the step in the middle)
+                step = self.ast[ctx.expr()[1]]
+                stop = self.ast[ctx.expr()[2]]
             else:
                 step = ast.Primary(value=1)
-            self.ast[ctx] = ast.Slice(
-                start=self.ast[ctx.expr()[0]], stop=self.ast[ctx.expr()[1]], step=step
-            )
+                stop = self.ast[ctx.expr()[1]]
+            self.ast[ctx] = ast.Slice(start=self.ast[ctx.expr()[0]], stop=stop, step=step)
         else:
             self.ast[ctx] = self.ast[ctx.expr()[0]]
 
